@@ -747,6 +747,9 @@ func (st *c12State) checkSeq(e *Emission, s Seq, h0 int, args []ast.Expr) {
 			if s.Kind == "CSI" && s.Final == "H" && s.Private == "" {
 				st.checkCUP(e, s, h0, args, paths)
 			}
+			if s.Kind == "CSI" && s.Inter == " " && s.Final == "q" && sub == nil {
+				st.checkDECSCUSR(e, s, h0, paths)
+			}
 			for _, cd := range effPath.Conds {
 				if cd.Field != nil && cd.Field.Exported() {
 					st.optionConds = append(st.optionConds, cd)
@@ -1355,4 +1358,40 @@ func (st *c12State) isCellText(fn *FuncInfo, e ast.Expr, depth int) bool {
 		}
 	}
 	return true
+}
+
+
+// checkDECSCUSR: the cursor style the renderer sends is the cursor style the emulator records (and hands to
+// the host in Draw): on every path the stored style is the parameter itself — 0 (the user's default) stays 0.
+func (st *c12State) checkDECSCUSR(e *Emission, s Seq, h0 int, paths []*c12Path) {
+	c := st.c
+	if c12CountHoles(s.Raw) != 1 {
+		return
+	}
+	key := fmt.Sprintf("%s/%q records the requested cursor shape", e.FnName, s.Raw)
+	var bad []string
+	stores := 0
+	for _, p := range paths {
+		found := false
+		for _, ef := range p.Effects {
+			if !strings.HasPrefix(ef.Path, "Model.cursor.") || ef.Field == nil || !strings.Contains(strings.ToLower(ef.Field.Name()), "style") {
+				continue
+			}
+			found = true
+			stores++
+			sym, ok := ef.Val.(c12Sym)
+			switch {
+			case !ok:
+				bad = append(bad, fmt.Sprintf("under %s the emulator records %s instead of the parameter", p.condString(), c12Show(ef.Val)))
+			case sym.Hole != h0 || sym.K != 0:
+				bad = append(bad, fmt.Sprintf("the emulator records the parameter %+d", sym.K))
+			}
+		}
+		if !found && len(p.NoCase) == 0 {
+			bad = append(bad, fmt.Sprintf("under %s the cursor style is not recorded", p.condString()))
+		}
+	}
+	st.seen["cursor style effect"] = true
+	c.check(len(c12Dedup(bad)) == 0, "C12.e", key, e.Call.Pos(), fmt.Sprintf("the style parameter is stored unchanged (%d store(s) on %d path(s))", stores, len(paths)),
+		strings.Join(c12Dedup(bad), "; ")+": the shape the application asked for (0 = the user's default) is not the one the emulator shows and passes on to its host")
 }
